@@ -168,6 +168,17 @@ def main(chk, replay=None):
     for fl in typed_batches(chk, rng, chk.tmpdir(), 30 if quick else 600)[:3]:
         chk.violation({"what": "typed batch differs from element-wise evaluation: %s" % fl["clause"],
                        "class": {"clause": fl["clause"], "stream": "typed-batch"}, "observed": fl})
+    # one large batch (more than a thousand distinct elements, the last ones failing), oracle only
+    big = dict(fns={1: dict(explicit=False, stmts=[], const=1, **{"raise": [1009, 1005, 0, 6]})})
+    for rf_ in (False, True):
+        r = trial(big, "memory", [3, 1001], 1, list(range(1010)) + [5], "i", rf_, False, False, chk.tmpdir())
+        chk.case(["large-batch", rf_], nontrivial=True, sample=dict(kind="batch of 1011 elements", raise_first=rf_))
+        chk.count("mode:large-batch")
+        if r["fails"] and reported < 4:
+            reported += 1
+            chk.violation({"what": "large batch differs from element-wise evaluation: %s" % r["fails"][0]["clause"], "class": {"clause": r["fails"][0]["clause"], "large": True},
+                           "program": big, "backend": "memory", "pre": [3, 1001], "f": 1, "args": list(range(1010)) + [5], "ctx": "i", "rf": rf_,
+                           "use_map": False, "warm": None, "observed": [dict(f, batch=str(f.get("batch"))[:300], individual=str(f.get("individual"))[:300]) for f in r["fails"][:2]]})
     for _ in range(nprog):
         prog = progs.gen_program(rng, nfns=rng.randint(2, 5), exc_rate=0.5)
         f = rng.choice(sorted(prog["fns"]))
